@@ -189,11 +189,11 @@ func main() {
 		return
 	}
 	r := report.New("C04", tier, "model_checking")
-	r.Rule = "E1: every structure tree of the 8 geometry types (members 0..3, ring/line lengths 0..2(3), collections nested to depth 2(3), *Bounds members) x every single (quick) / single+double (thorough) substitution of {-0,+Inf,-Inf} into a coordinate slot; plus all pairs and triples of the closed boxes over a 4-value lattice per axis and the empty box. Non-trivial = geometry has at least one empty member or a substituted coordinate; box tuples with at least one proper overlap."
+	r.Rule = "E1: every structure tree of the 8 geometry types (members 0..3, ring/line lengths 0..2(3), collections nested to depth 2(3), *Bounds members) x every single and double substitution of {-0,+Inf,-Inf} into a coordinate slot; plus all pairs and triples of the closed boxes over a 4-value lattice per axis and the empty box. Non-trivial = geometry has at least one empty member or a substituted coordinate; box tuples with at least one proper overlap."
 	r.Assumptions = []string{"NaN coordinates are outside the alphabet (min/max semantics undefined)", "a *Bounds used as a geometry has Min<=Max"}
 
 	cfg := geomgen.Config{MaxMembers: 3, Lens: []int{0, 1, 2}, FlatMax: 3, PolyRings: 2, Depth: 2, GCMembers: 2, Bounds: true}
-	maxSubs := 1
+	maxSubs := 2
 	nb := 4
 	if tier == "thorough" {
 		cfg.Lens = []int{0, 1, 2, 3}
